@@ -1546,7 +1546,9 @@ class Emitter:
         nm, t = env[v]
         m, args = e[2], e[3]
         if m == "reserve":
-            return "let _ : Unit := ()"
+            # a capacity hint: no effect on the value, but its argument is evaluated (it may panic)
+            c, _ = self.expr(args[0], env, "usize")
+            return "let _ : Nat := %s" % c
         if t == "natlist":
             if m == "push":
                 c, ct = self.expr(args[0], env, "u32")
